@@ -1,6 +1,7 @@
 package props
 
 import (
+	"bytes"
 	"fmt"
 	"sort"
 	"testing"
@@ -79,6 +80,9 @@ type c04Case struct {
 	D     DumpM
 	Race  *RaceM `json:",omitempty"` // a race report instead of a goroutine dump
 	First int    // index of the goroutine flagged First; -1: none (constructed snapshots only); -2: as parsed
+	// CutAfterHeader: the dump ends right after the header line of its last goroutine (a
+	// crash log cut short); the parser keeps that goroutine, which then has no frame at all.
+	CutAfterHeader bool `json:",omitempty"`
 }
 
 func (c *c04Case) snapshot() (*stack.Snapshot, error) {
@@ -90,6 +94,15 @@ func (c *c04Case) snapshot() (*stack.Snapshot, error) {
 			return nil, fmt.Errorf("generated race report does not parse: %v", err)
 		}
 		err = nil
+	} else if c.CutAfterHeader && len(c.D.Gs) >= 2 {
+		x := c.D.Print()
+		sp := c.D.Spans()
+		at := sp[len(sp)-1][0]
+		x = x[:at+bytes.IndexByte(x[at:], '\n')+1]
+		s, _ = scanAloneOpts(x, plainOpts())
+		if s == nil || len(s.Goroutines) != len(c.D.Gs) {
+			return nil, fmt.Errorf("a dump cut right after its last goroutine header does not give %d goroutines: %q", len(c.D.Gs), quoteShort(truncBytes(x, 600)))
+		}
 	} else {
 		s, err = parseDump(&c.D, plainOpts())
 	}
@@ -155,6 +168,7 @@ var c04Rand = Check[c04Case]{
 		if oneIn(t, 3, "moveFirst") {
 			c.First = rapid.IntRange(-1, len(c.D.Gs)-1).Draw(t, "firstAt")
 		}
+		c.CutAfterHeader = oneIn(t, 6, "cutAfterHeader")
 		return c
 	},
 	Oracle: c04Oracle,
@@ -171,12 +185,15 @@ var c04Rand = Check[c04Case]{
 		if nt {
 			cl = append(cl, "merge_of_unequal_members")
 		}
+		if c.CutAfterHeader && len(c.D.Gs) >= 2 {
+			cl = append(cl, "frameless_last_goroutine")
+		}
 		in := c.D.Print()
 		if c.Race != nil {
 			cl = append(cl, "race_snapshot")
 			in = c.Race.Print()
 		}
-		return Obs{Nontrivial: nt, Digest: digestBytes(in, []byte{byte(c.First)}), Classes: cl, Sample: quoteShort(truncBytes(in, 900))}
+		return Obs{Nontrivial: nt, Digest: digestBytes(in, []byte{byte(c.First), b2b(c.CutAfterHeader)}), Classes: cl, Sample: quoteShort(truncBytes(in, 900))}
 	},
 }
 
